@@ -641,6 +641,26 @@ theorem paris_terminates (round32 : ℚ → ℚ) (csr : List (List (Nat × ℚ))
           | error e => simp [Except.map]
           | ok D => simp [Except.map]
 
+/-- **Paris, total statement**: on a symmetric graph, with the fuel of `paris_terminates`, `Paris.fit` either raises
+    or returns a valid dendrogram over the `n` nodes (sorted heights when `reorder=True`, heights never decreasing
+    towards the root otherwise). -/
+theorem paris_total (round32 : ℚ → ℚ) (csr : List (List (Nat × ℚ))) (outW inW : List ℚ) (reorder : Bool)
+    (hsym : NbInv (AggGraph.init csr outW inW).nb csr.length) (fuel : Nat)
+    (hfuel : (csr.length + 1) * (2 * csr.length * (2 * csr.length) + 3) ≤ fuel) :
+    (∃ e, Paris.fit round32 fuel (AggGraph.init csr outW inW) reorder = .error e) ∨
+    ∃ D, Paris.fit round32 fuel (AggGraph.init csr outW inW) reorder = .ok (some D) ∧
+      ValidDendro csr.length D = true ∧
+      (if reorder then heightsSorted D = true else MonoPaths csr.length D = true) := by
+  have hne := paris_terminates round32 csr outW inW reorder hsym fuel hfuel
+  cases hfit : Paris.fit round32 fuel (AggGraph.init csr outW inW) reorder with
+  | error e => exact Or.inl ⟨e, rfl⟩
+  | ok r =>
+    cases r with
+    | none => exact absurd hfit hne
+    | some D =>
+      obtain ⟨h1, h2⟩ := paris_valid round32 fuel csr outW inW reorder hfit
+      exact Or.inr ⟨D, rfl, h1, h2⟩
+
 /-- non-vacuity: the graph with one edge between two nodes satisfies the hypothesis, and with the fuel of the
     theorem `Paris.fit` returns a valid dendrogram -/
 example : NbInv (AggGraph.init [[(1, (1 : ℚ) / 2)], [(0, 1 / 2)]] [1 / 2, 1 / 2] [1 / 2, 1 / 2]).nb 2 ∧
